@@ -279,6 +279,12 @@ def scenario(desc, nm):
                                                                 signature=sig1,
                                                                 boundary_width={d0: {"left": (1, 0), "right": (0, 1), "outer": (1, 1), "inner": (0, 0)}[p1]},
                                                                 boundary="periodic"), inv)))
+        if p1 in ("left", "right"):
+            # the same one-axis ufunc on lazy data chunked along the core dimension, mapped over the chunks
+            lazy = da.chunk({nm[f"dim:{a1}:center"]: 1})
+            out.append(("one-axis-lazy-map_overlap", rec(lambda: apply_as_grid_ufunc(
+                lambda x: x[..., 1:] + x[..., :-1], lazy, axis=[(nm[a1],)], grid=g, signature=sig1,
+                boundary_width={d0: {"left": (1, 0), "right": (0, 1)}[p1]}, boundary="periodic", dask="allowed", map_overlap=True).compute(scheduler="synchronous"), inv)))
         return out
     if kind == "transform":
         ds, cmap = build(desc, nm)
